@@ -64,6 +64,22 @@ def run(ctx):
             else:
                 data = base + bytes(rng.getrandbits(8) for _ in range(3))
             cases.append((i, data))
+        # known tags with degenerate payloads (null / empty markers, nothing at all, one stray byte):
+        # whatever the reader makes of them must be an error of the allowed kind or a value the
+        # encoder takes back
+        import dataclasses as _dc
+        c_ = cl.cls(i)
+        if base and c_.__flexible__:
+            plain = codec.encode_real(c_, _dc.replace(obj, **{f.name: f.default for f in _dc.fields(c_)
+                                                               if "tag" in f.metadata and f.default is not _dc.MISSING}))
+            if plain.startswith("ok"):
+                pb = values.unhex_tok(plain.split()[1])
+                tags = sorted(int(f.metadata["tag"]) for f in _dc.fields(c_) if "tag" in f.metadata)
+                if tags and pb and pb[-1] == 0:
+                    for t in tags:
+                        if t < 128:
+                            for payload in (b"\x00", b"\x01", b"", b"\x02\x00", b"\xff", b"\x00\x00"):
+                                cases.append((i, pb[:-1] + bytes([1, t, len(payload)]) + payload))
     fails, disagreements, lines, meta = [], [], [], []
     outcome = {}
     nontrivial = set()
